@@ -221,6 +221,75 @@ pub fn run(ctx: &Ctx) -> Report {
             }
         }
     }
+    // ---- part 2b: partial updates: the bytes behind the RAM command end with exactly the lent buffer ----
+    for spec in panels_for(ctx) {
+        let mut rng = Rng::derive(ctx.seed, hash_str(spec.name) ^ 0xC10B);
+        let wins = crate::props::c06::windows_for(spec, ctx.tier_thorough, &mut rng);
+        for pe in spec.partial {
+            if pe.is_fill {
+                continue;
+            }
+            // the first windows of the list (edges, single byte / row, 256-row and 256-column boundaries) + the tallest and widest
+            let mut ws: Vec<Win> = wins.iter().take(if ctx.tier_thorough { 200 } else { 40 }).cloned().collect();
+            ws.push(Win::new(0, 0, w8(spec), spec.h));
+            ws.push(Win::new(0, 0, 8, spec.h));
+            ws.push(Win::new(0, 0, w8(spec), 1));
+            if spec.h > 256 {
+                ws.push(Win::new(8, 0, 8, 256));
+                ws.push(Win::new(0, spec.h - 257, 16, 257));
+            }
+            for w in ws {
+                rep.eval(spec.name);
+                let mut rig = Rig::simple(spec);
+                let mut pre: Vec<Op> = Vec::new();
+                if spec.name == "epd2in9b_v4" {
+                    pre.push(Op::img2(K::UpdateAndDisplayBase, frame_img(spec, K::UpdateFrame, 31), Img::None));
+                }
+                if let Some(k) = pe.after {
+                    pre.push(partial_op(spec, k, w, 0x51));
+                }
+                if pre.iter().any(|o| !rig.apply(o).is_ok()) {
+                    rep.count("ops_failing_for_other_reasons", 1);
+                    continue;
+                }
+                let op = partial_op(spec, pe.k, w, 0x10B ^ (w.x * 31 + w.y));
+                let o = rig.apply(&op);
+                if !o.is_ok() {
+                    rep.count("ops_failing_for_other_reasons", 1);
+                    continue;
+                }
+                let b = rig.board.borrow();
+                let segs = op_segments(&b.log);
+                let (_, s, e) = *segs.last().unwrap();
+                let lent = op.img.make();
+                // all D/C-high bytes of the call, in order
+                let mut data: Vec<u8> = Vec::new();
+                for ev in &b.log[s..e] {
+                    if let Ev::Spi { levels, off, len, ok: true } = ev {
+                        if levels & Pin::Dc.bit() != 0 {
+                            data.extend_from_slice(&b.bytes[*off as usize..(*off + *len) as usize]);
+                        }
+                    }
+                }
+                let want = encode(pe.enc, &lent);
+                rep.count("partial_payload_bytes_compared", want.len() as u64);
+                rep.nontrivial(hash_str(&format!("ppay|{}|{}|{:?}", spec.name, pe.k.name(), w)));
+                // the lent buffer must appear on the wire as one contiguous run (window parameters precede it,
+                // a few trailing parameter bytes of closing commands may follow)
+                let found = want.is_empty() || data.windows(want.len()).any(|x| x == &want[..]);
+                if !found {
+                    rep.fail(Failure {
+                        panel: spec.name.into(),
+                        entry: pe.k.name().into(),
+                        class: "payload-differs".into(),
+                        tags: vec!["partial".into()],
+                        detail: format!("window {:?}: the {} bytes lent to the call do not appear as one run among the {} data bytes it sent", w, want.len(), data.len()),
+                        case: case_json(spec, &ctx.variant, &[op.clone()]),
+                    });
+                }
+            }
+        }
+    }
     // ---- part 3a: clear_frame / update_frame: every RAM command of the call carries exactly one plane ----
     for spec in panels_for(ctx) {
         // every background colour the driver accepts (the fill count may sit in a per-colour branch)
